@@ -10,7 +10,7 @@ use serde_json::{json, Value};
 pub static ENGINE: Engine = Engine {
     prop: "C09",
     level: "exploration",
-    rule: "every reference-free AST with <= N nodes over a binder-heavy alphabet (names a, b, c, X used free and bound; quantifier lists [], [a], [b], [a,b], [X], [c] where c occurs nowhere else; lfp/gfp on X and on a; not, & |, if, counting) printed as text and given to the real parser under the default order and under the reversed explicit order: free_vars == reference FV(AST) listed in variable order; vars == every name of the text exactly once in variable order; raw2free / to_free_index map exactly the free variables to their position; every variable tested by eval() is free. Plus and/or chains over 33 and 70 variables with binders around ids 31/32/n-1. distinct = distinct (formula text, ordering)",
+    rule: "every reference-free AST with <= N nodes over a binder-heavy alphabet (names a, b, c, X used free and bound; quantifier lists [], [a], [b], [a,b], [X], [c] where c occurs nowhere else; lfp/gfp on X and on a; not, & |, if, counting) printed as text and given to the real parser under the default order, under the reversed explicit order (ids 0.. in vector order) and — one size smaller — under the reversed order handed over as a vector listed in descending id order with gapped ids: free_vars == reference FV(AST) listed in variable order; vars == every name of the text exactly once in variable order; raw2free / to_free_index map exactly the free variables to their position; every variable tested by eval() is free. Plus and/or chains over 33 and 70 variables with binders around ids 31/32/n-1. distinct = distinct (formula text, ordering)",
     assumptions: &["reference FV = names with an occurrence not enclosed by a quantifier or fixed-point binder of the same name (harness/src/refl.rs)", "AST size bound; evaluation only where the reference finds all fixed points convergent"],
     max_shards: 64,
     run,
@@ -36,7 +36,14 @@ fn alpha() -> Alpha {
 }
 
 fn case(text: &str, rev: bool) -> Value {
-    json!({"part": "fv", "text": text, "reversed_order": rev})
+    json!({"part": "fv", "text": text, "reversed_order": rev, "vector_descending": SCRAMBLE.with(|s| s.get())})
+}
+
+thread_local! {
+    /// when set, the explicit ordering of the reversed-order runs is handed over as a vector
+    /// listed in DESCENDING id order with gapped ids: the variable order is given by the ids,
+    /// not by positions in the vector
+    static SCRAMBLE: std::cell::Cell<bool> = const { std::cell::Cell::new(false) };
 }
 
 fn check(ctx: &mut Ctx, a: &Ast, text: &str, rev: bool) {
@@ -46,7 +53,16 @@ fn check(ctx: &mut Ctx, a: &Ast, text: &str, rev: bool) {
     let names = a.names();
     // variable order: default = first appearance; reversed = explicit ordering with ids 0..
     let order: Vec<String> = if rev { names.iter().rev().cloned().collect() } else { names.clone() };
-    let ordering = if rev { Some(order.iter().enumerate().map(|(i, n)| sym(n, i)).collect::<Vec<_>>()) } else { None };
+    let scramble = SCRAMBLE.with(|s| s.get());
+    let ordering = if rev {
+        let mut v = order.iter().enumerate().map(|(i, n)| sym(n, if scramble { 3 * i + 2 } else { i })).collect::<Vec<_>>();
+        if scramble {
+            v.reverse();
+        }
+        Some(v)
+    } else {
+        None
+    };
     let p = match impl_parse_bytes(text.as_bytes(), ordering) {
         ImplParse::Ok(p) => p,
         ImplParse::Err(e) => {
@@ -102,7 +118,7 @@ fn check(ctx: &mut Ctx, a: &Ast, text: &str, rev: bool) {
         c.truncate(4);
         ctx.violation(key(), c.join("; "), case(text, rev));
     } else {
-        ctx.distinct(&(text, rev));
+        ctx.distinct(&(text, rev, scramble));
         ctx.sample(|| json!({"text": text, "free": want_free, "vars": order}));
     }
 }
@@ -115,7 +131,7 @@ fn run(ctx: &mut Ctx) {
     long_names(ctx, &mut idx);
     for size in 1..=upto {
         let mut todo = vec![];
-        let mut flush = |ctx: &mut Ctx, todo: &mut Vec<Ast>| {
+        let flush = |ctx: &mut Ctx, todo: &mut Vec<Ast>| {
             for a in todo.drain(..) {
                 let text = refl::pp(&a, refl::MINIMAL);
                 if refl::parse(&text).as_ref() != Ok(&a) {
@@ -123,6 +139,11 @@ fn run(ctx: &mut Ctx) {
                 }
                 check(ctx, &a, &text, false);
                 check(ctx, &a, &text, true);
+                if a.size() < upto {
+                    SCRAMBLE.with(|s| s.set(true));
+                    check(ctx, &a, &text, true);
+                    SCRAMBLE.with(|s| s.set(false));
+                }
                 ctx.count("asts", 1);
             }
         };
@@ -193,6 +214,8 @@ fn long_names(ctx: &mut Ctx, idx: &mut u64) {
 fn replay(ctx: &mut Ctx, c: &Value) {
     let text = c["text"].as_str().unwrap_or("");
     if let Ok(a) = refl::parse(text) {
+        SCRAMBLE.with(|s| s.set(c["vector_descending"].as_bool().unwrap_or(false)));
         check(ctx, &a, text, c["reversed_order"].as_bool().unwrap_or(false));
+        SCRAMBLE.with(|s| s.set(false));
     }
 }
